@@ -64,6 +64,33 @@ type Exec struct {
 	info     *types.Info
 	opts     *Options
 	allocs   map[string]*ssa.Alloc
+	nameAnchor map[ssa.Instruction]string
+}
+
+// calleeShortName: the method or function name of a call (for anchors that survive unrelated edits)
+func calleeShortName(c *ssa.Call) string {
+	cc := c.Common()
+	if cc.IsInvoke() {
+		return cc.Method.Name()
+	}
+	switch f := cc.Value.(type) {
+	case *ssa.Function:
+		return f.Name()
+	case *ssa.MakeClosure:
+		return f.Fn.Name()
+	case *ssa.Parameter:
+		return f.Name()
+	}
+	if ld, ok := cc.Value.(*ssa.UnOp); ok {
+		if fa, ok := ld.X.(*ssa.FieldAddr); ok {
+			if pt, ok := fa.X.Type().Underlying().(*types.Pointer); ok {
+				if st, ok := pt.Elem().Underlying().(*types.Struct); ok {
+					return st.Field(fa.Field).Name()
+				}
+			}
+		}
+	}
+	return ""
 }
 
 type Options struct {
@@ -101,6 +128,19 @@ func newExec(p *Program, fn *ssa.Function, con *Contract, opts *Options) *Exec {
 			}
 			counts[k]++
 			ex.ordinal[in] = counts[k]
+			if c, ok := in.(*ssa.Call); ok {
+				if _, isBuiltin := c.Call.Value.(*ssa.Builtin); !isBuiltin {
+					// name-based anchor: the k-th call (in SSA order) of a callee with this name
+					nm := calleeShortName(c)
+					if nm != "" {
+						counts["name:"+nm]++
+						if ex.nameAnchor == nil {
+							ex.nameAnchor = map[ssa.Instruction]string{}
+						}
+						ex.nameAnchor[in] = fmt.Sprintf("call:%s#%d", nm, counts["name:"+nm])
+					}
+				}
+			}
 			if a, ok := in.(*ssa.Alloc); ok && a.Comment != "" {
 				if _, dup := ex.allocs[a.Comment]; !dup {
 					ex.allocs[a.Comment] = a
@@ -473,6 +513,44 @@ func (ex *Exec) run() (err error) {
 				}
 				if !dup {
 					ex.cons = append(ex.cons, x)
+				}
+			}
+		}
+	}
+	// every anchored clause must name an instruction of the function as it is now
+	{
+		have := map[string]bool{"entry": true}
+		for _, b := range fn.Blocks {
+			for _, in := range b.Instrs {
+				switch t := in.(type) {
+				case *ssa.Call:
+					if bi, ok := t.Call.Value.(*ssa.Builtin); ok {
+						have[fmt.Sprintf("%s#%d", bi.Name(), ex.ordinal[in])] = true
+					} else {
+						have[fmt.Sprintf("call#%d", ex.ordinal[in])] = true
+					}
+					if a := ex.nameAnchor[in]; a != "" {
+						have[a] = true
+					}
+				case *ssa.Store:
+					have[fmt.Sprintf("store#%d", ex.ordinal[in])] = true
+				case *ssa.MapUpdate:
+					have[fmt.Sprintf("mapupdate#%d", ex.ordinal[in])] = true
+				}
+			}
+		}
+		for _, c := range ex.cons[:ex.ownCons] {
+			if c.Kind == "interface" || c.Kind == "functype" {
+				continue
+			}
+			for _, a := range c.Asserts {
+				if !have[a.Anchor] {
+					ex.abort("STALE-CONTRACT: assert_at %s [%s]: the function has no such instruction", a.Anchor, a.Label)
+				}
+			}
+			for _, g := range c.GAt {
+				if !have[g.Anchor] {
+					ex.abort("STALE-CONTRACT: ghost_at %s: the function has no such instruction", g.Anchor)
 				}
 			}
 		}
@@ -964,9 +1042,13 @@ func (ex *Exec) ghostAt(st *State, in ssa.Instruction) {
 		return
 	}
 	ex.assertsAt(st, anchor, in.Pos())
+	alt := ex.nameAnchor[in]
+	if alt != "" {
+		ex.assertsAt(st, alt, in.Pos())
+	}
 	for _, c := range ex.cons[:ex.ownCons] {
 		for _, g := range c.GAt {
-			if g.Anchor != anchor {
+			if g.Anchor != anchor && (alt == "" || g.Anchor != alt) {
 				continue
 			}
 			e := ex.envFor(st, c)
